@@ -178,6 +178,47 @@ func sameEmbBase(a, b ssa.Value) bool {
 	return false
 }
 
+// indexedJustAfter: the increment g = g+1 is followed, in its own block and before any other store to g, by an index
+// h[g-1] on the same struct: control leaves the block normally only with g-1 < len(h), i.e. g <= len(h) — the step
+// written "advance, then read the rune stepped over" (that the read cannot fail is the index site's own obligation).
+func indexedJustAfter(st *ssa.Store, fa *ssa.FieldAddr, hname string) bool {
+	b := st.Block()
+	after := false
+	for _, in := range b.Instrs {
+		if in == ssa.Instruction(st) {
+			after = true
+			continue
+		}
+		if !after {
+			continue
+		}
+		if s2, ok := in.(*ssa.Store); ok {
+			if f2, ok := s2.Addr.(*ssa.FieldAddr); ok && f2.Field == fa.Field && sameEmbBase(f2.X, fa.X) {
+				return false
+			}
+		}
+		ia, ok := in.(*ssa.IndexAddr)
+		if !ok {
+			continue
+		}
+		hl := fieldLoad(ia.X)
+		if hl == nil || !sameEmbBase(embRoot(hl.X), embRoot(fa.X)) || fieldName(hl.X.Type(), hl.Field) != hname {
+			continue
+		}
+		bo, ok := ia.Index.(*ssa.BinOp)
+		if !ok || bo.Op != token.SUB {
+			continue
+		}
+		if k, ok := constInt(bo.Y); !ok || k != 1 {
+			continue
+		}
+		if gl := fieldLoad(bo.X); gl != nil && gl.Field == fa.Field && sameEmbBase(gl.X, fa.X) {
+			return true
+		}
+	}
+	return false
+}
+
 func fieldLoad(v ssa.Value) *ssa.FieldAddr {
 	u, ok := v.(*ssa.UnOp)
 	if !ok || u.Op != token.MUL {
@@ -229,7 +270,7 @@ func (inv *Invariants) deriveLeLen(f *Facts) {
 					ln := lin{"len(" + base + "." + hname + ")", 0}
 					f.addImplicit(d, []string{g.base, ln.base})
 					d.close()
-					if !d.proves(g, token.LSS, ln) {
+					if !d.proves(g, token.LSS, ln) && !indexedJustAfter(s.in, fa, hname) {
 						ok = false
 					}
 				default:
